@@ -109,6 +109,11 @@ OBJ_CLASSES = {c.__name__: c for c in (AttrsA, AttrsB, AttrsDict, SlotsA, SlotsB
 HASHED_FIELDS = {n: ("x", "y") for n in OBJ_CLASSES}
 UNHASHED_FIELDS = {"AttrsA": ("note",), "AttrsB": ("note",)}
 
+METHOD_CLASSES = ("PlainA", "PlainB", "PlainDunder")  # classes of the object grammar that define `method`
+# classes hashed through __dict__: an attribute whose value is a bound method is skipped by the fallback (by design:
+# `is_special_or_method`), so it is not content
+DICT_KIND_CLASSES = ("PlainA", "PlainB", "PlainDunder")
+
 TYPE_EXPRS = [
     "int", "str", "float", "bool", "bytes", "complex", "list", "dict", "tuple", "set", "frozenset", "type(None)",
     "ty.Any", "ty.List[int]", "ty.List[str]", "ty.Dict[str, int]", "ty.Dict[int, int]", "ty.Tuple[int, str]",
@@ -676,7 +681,15 @@ def canon(s, env=None, stack=()):
         st = stack + ((s.get("name"),) if s.get("name") else ())
         if s.get("name"):
             env[s["name"]] = s
-        kw = {n: canon(v, env, st) for n, v in s["kw"].items() if n in HASHED_FIELDS[s["cls"]]}
+        kw = {
+            n: canon(v, env, st)
+            for n, v in s["kw"].items()
+            if n in HASHED_FIELDS[s["cls"]] and not (s["cls"] in DICT_KIND_CLASSES and v["k"] == "method")
+        }
+        if s["cls"] in DICT_KIND_CLASSES:
+            for n, v in s["kw"].items():  # a skipped attribute is absent, not defaulted
+                if v["k"] == "method" and n in HASHED_FIELDS[s["cls"]]:
+                    kw[n] = ["<bound method: not hashed>"]
         for n in HASHED_FIELDS[s["cls"]]:
             kw.setdefault(n, ["int", "0"] if n == "x" else ["none"])
         return ["obj", s["cls"], sorted(kw.items())]
@@ -1021,6 +1034,8 @@ def valid(s) -> bool:
         if n["k"] in ("set", "frozenset") and not all(hashable(x) for x in n["xs"]):
             return False
         if n["k"] == "dict" and not all(hashable(kv[0]) for kv in n["items"]):
+            return False
+        if n["k"] == "method" and not (n["obj"]["k"] == "obj" and n["obj"]["cls"] in METHOD_CLASSES):
             return False
     return True
 
